@@ -870,7 +870,8 @@ class Exec:
             return z3.And(*[x == y for x, y in zip(self.flat.pack(t, a), self.flat.pack(t, b))])
         if isinstance(a, VMap) and isinstance(b, VMap):
             k = z3.Int(fresh_name("k"))
-            return z3.ForAll([k], z3.And(a.dom[k] == b.dom[k], z3.Implies(a.dom[k], a.val[k] == b.val[k])))
+            return z3.And(a.card == b.card,
+                          z3.ForAll([k], z3.And(a.dom[k] == b.dom[k], z3.Implies(a.dom[k], a.val[k] == b.val[k]))))
         raise Unsupported(f"== on {a} and {b}")
 
     def seq_equal(self, a: VSeq, b: VSeq):
